@@ -13,6 +13,12 @@ Case kinds (JSON):
   kwops   {"k","ops":[["lit",name,variant]|["new",name], ...]}   keyword intern table, in process
   import  {"k","src","ns","pert":{...},"wseed","rseed", ...}     full import path, child interpreters
   xerr    {"k","src","ns","exc":...}                 valid cache whose execution raises
+  hist    {"k","ns","dwb","again","mtime","pad","steps":[...]}   ONE child interpreter runs a whole
+          history over one namespace file: ["import"] | ["reload", "importlib"|"ns"|"require"] |
+          ["invalidate"] | ["edit", version, mtime, pad] | ["touch", {pert}]; after every import /
+          reload the child reports which version's definitions are visible, whether the cache
+          was used, and what cache file is left behind
+  shape   {"k"}                                      static: who stats the source (tr_importer)
 """
 import base64
 import importlib
@@ -25,7 +31,9 @@ import tempfile
 
 PYTHON = "/venv/bin/python"
 VERIF = os.path.dirname(os.path.dirname(os.path.dirname(os.path.abspath(__file__))))
-REPO_SRC = os.path.join(os.environ.get("VERIF_REPO", "/repo"), "src")
+# C14_REPO_SRC points the child interpreters (and the `shape` case) at another copy of the
+# sources, e.g. a scratch copy carrying a seeded change; /repo is never written either way
+REPO_SRC = os.environ.get("C14_REPO_SRC") or os.path.join(os.environ.get("VERIF_REPO", "/repo"), "src")
 PREFIX = os.environ.get("C14_PYCACHE_PREFIX", os.path.join(VERIF, ".cache", "c14", "pc"))
 SRC_MTIME = 1_700_000_000        # every generated source file gets this mtime (seconds)
 CLASSES = ("EOFError", "ImportError", "OSError", "ValueError", "TypeError")
@@ -192,18 +200,8 @@ def ensure_warm(timeout=900):
         shutil.rmtree(td, ignore_errors=True)
 
 
-def child_main(argv):
-    """Runs in the child interpreter."""
-    a = json.loads(argv[0])
-    rep = {"seed": os.environ.get("PYTHONHASHSEED"), "prefix": sys.pycache_prefix,
-           "dwb": sys.dont_write_bytecode}
-    from basilisp import main as bmain, importer as imp
-    bmain.init()
-    importlib.import_module("basilisp.core")
-    if a.get("mode") == "warm":
-        print("C14CHILD " + json.dumps(rep))
-        return
-    events = []
+def _observe(imp, nsname, events):
+    """Wrap the loader's stages with pure observers (every exception is re-raised)."""
     L = imp.BasilispImporter
     orig_cached, orig_exec, orig_get = L._exec_cached_module, L._exec_module, imp._get_basilisp_bytecode
 
@@ -211,15 +209,15 @@ def child_main(argv):
         try:
             res = orig_cached(self, fullname, *r)
         except BaseException as e:   # noqa: observation only, re-raised
-            if fullname == a["ns"]:
+            if fullname == nsname:
                 events.append(["cached-raised", _cls(e)])
             raise
-        if fullname == a["ns"]:
+        if fullname == nsname:
             events.append(["cached-ok"])
         return res
 
     def w_exec(self, fullname, *r):
-        if fullname == a["ns"]:
+        if fullname == nsname:
             events.append(["compile-from-source"])
         return orig_exec(self, fullname, *r)
 
@@ -227,15 +225,15 @@ def child_main(argv):
         try:
             res = orig_get(fullname, *r)
         except BaseException as e:   # noqa
-            if fullname == a["ns"]:
+            if fullname == nsname:
                 events.append(["decode-raised", _cls(e)])
             raise
-        if fullname == a["ns"]:
+        if fullname == nsname:
             events.append(["decode-ok"])
         return res
 
     orig_data = L.get_data
-    tail = a["ns"].split(".")[-1] + "." + sys.implementation.cache_tag + ".lpyc"
+    tail = nsname.split(".")[-1] + "." + sys.implementation.cache_tag + ".lpyc"
 
     def w_data(self, path):
         try:
@@ -247,6 +245,171 @@ def child_main(argv):
 
     L._exec_cached_module, L._exec_module, imp._get_basilisp_bytecode = w_cached, w_exec, w_get
     L.get_data = w_data
+
+
+# ---------------------------------------------------------------------------------------
+# in-process histories over one namespace file
+# ---------------------------------------------------------------------------------------
+def hist_src(ns, ver, pad):
+    """Version `ver` (1..9: one digit, so two versions with equal `pad` have equal size) of
+    the namespace file of a history; every definition tells the version apart."""
+    return (f'(ns {ns} "history case of C14")\n'
+            f'(def version {ver})\n'
+            f'(def marker "c14h-v{ver};")\n'
+            f'(def data {{:v {ver} :kw [:c14/q "s{ver}"]}})\n'
+            f'(defn probe [] (+ version 100))\n'
+            f'(defmacro vmac [] {ver})\n'
+            f'(defn viamac [] (vmac))\n' + ";" * pad + "\n")
+
+
+def _touch_bytes(data, pert, cur_mtime, cur_size):
+    """The damage kinds of the `import` cases, on the cache file as it is now (mirrors
+    touch_bytes of Corr.v)."""
+    kind = pert["kind"]
+    if kind == "missing":
+        return None
+    if kind == "trunc":
+        return data[:pert["n"]]
+    if kind == "trunc_pay":
+        return data if len(data) < 12 else data[:12 + (len(data) - 12) * pert["num"] // pert["den"]]
+    if kind == "trunc_tail":
+        return data[:max(0, len(data) - pert["n"])]
+    if kind == "magic":
+        return bytes(pert["bytes"]) + data[4:]
+    if kind == "hdr_mtime":
+        return data[:4] + _w_long(cur_mtime + pert["delta"]) + data[8:]
+    if kind == "hdr_size":
+        return data[:8] + _w_long(cur_size + pert["delta"]) + data[12:]
+    raise ValueError(kind)
+
+
+def _cache_describes(data, ver, mtime, size):
+    """Spec level: is `data` the cache of version `ver` of the source with these stats?
+    (header bytes, a payload marshal accepts, and the marker string of that version -- and
+    of no other -- among its constants)"""
+    import re
+    if not _valid_cache(data, mtime, size):
+        return False
+    marks = set(re.findall(rb"c14h-v(\d+);", data[12:]))
+    return marks == {str(ver).encode()}
+
+
+def child_hist(a, rep, imp):
+    """Runs in the child: the whole history in this one process."""
+    import re
+    import types
+    from basilisp.lang import runtime, symbol as sym, keyword as kw
+    nsname, f, cpath = a["ns"], a["f"], a["cpath"]
+    srcdir = a["srcdir"]
+    events = []
+    _observe(imp, nsname, events)
+    if a.get("dwb"):
+        sys.dont_write_bytecode = True
+    rep["dwb"] = sys.dont_write_bytecode
+    obs = []
+
+    def cur():
+        text = open(f, encoding="utf-8").read()
+        st = os.stat(f)
+        return int(re.search(r"\(def version (\d+)\)", text).group(1)), int(st.st_mtime), st.st_size
+
+    def visible():
+        """The version every definition of the namespace shows (255: they disagree)."""
+        ns = runtime.Namespace.get(sym.symbol(nsname))
+        if ns is None:
+            return 0, "no namespace"
+
+        def val(n):
+            v = ns.find(sym.symbol(n))
+            return None if v is None else v.value
+        try:
+            seen = [val("version"), int(re.fullmatch(r"c14h-v(\d+);", val("marker")).group(1)),
+                    val("data").val_at(kw.keyword("v")), val("probe")() - 100, val("viamac")(),
+                    getattr(sys.modules[nsname], "version", None)]
+        except BaseException as e:   # noqa
+            return 255, f"{type(e).__name__}: {e}"[:200]
+        return (seen[0], None) if len(set(seen)) == 1 and isinstance(seen[0], int) else (255, repr(seen))
+
+    def load(fn):
+        del events[:]
+        raised = None
+        try:
+            fn()
+        except BaseException as e:   # noqa
+            raised = f"{type(e).__name__}: {e}"[:200]
+        ev = [e[0] for e in events]
+        ver, mtime, size = cur()
+        v, why = visible()
+        o = {"t": "load", "ver": v, "cur": ver,
+             "used": "decode-ok" in ev and "cached-ok" in ev,
+             "recompiled": "compile-from-source" in ev,
+             "decode_exc": next((e[1] for e in events if e[0] == "decode-raised"), None),
+             "cva": _cache_describes(_read(cpath), ver, mtime, size),
+             "raised": raised, "events": ev}
+        if why:
+            o["why"] = why
+        obs.append(o)
+
+    for st in a["steps"]:
+        op = st[0]
+        if op == "import":
+            if nsname in sys.modules:
+                importlib.import_module(nsname)          # a sys.modules hit: nothing may run
+                obs.append({"t": "already", "ver": visible()[0]})
+            else:
+                load(lambda: importlib.import_module(nsname))
+        elif op == "reload":
+            via = st[1] if len(st) > 1 else "importlib"
+            mod = sys.modules.get(nsname)
+            if mod is None:
+                try:
+                    importlib.reload(types.ModuleType(nsname))
+                    obs.append({"t": "reload-of-nothing-succeeded"})
+                except ImportError:
+                    obs.append({"t": "notloaded"})
+            elif via == "ns":
+                load(lambda: runtime.Namespace.get(sym.symbol(nsname)).reload())
+            elif via == "require":
+                from harness.vlib import bl
+                load(lambda: bl.ev(f"(require '{nsname} :reload)"))
+            else:
+                load(lambda: importlib.reload(mod))
+        elif op == "invalidate":
+            importlib.invalidate_caches()
+        elif op == "edit":
+            _write_src(srcdir, nsname, hist_src(nsname, st[1], st[3]), st[2])
+        elif op == "touch":
+            data = _read(cpath)
+            if data is not None:
+                _, mtime, size = cur()
+                new = _touch_bytes(data, st[1], mtime, size)
+                if new is None:
+                    os.unlink(cpath)
+                else:
+                    with open(cpath, "wb") as fh:
+                        fh.write(new)
+        else:
+            obs.append({"t": "bad-step"})
+    rep["obs"] = obs
+
+
+def child_main(argv):
+    """Runs in the child interpreter."""
+    a = json.loads(argv[0])
+    rep = {"seed": os.environ.get("PYTHONHASHSEED"), "prefix": sys.pycache_prefix,
+           "dwb": sys.dont_write_bytecode}
+    from basilisp import main as bmain, importer as imp
+    bmain.init()
+    importlib.import_module("basilisp.core")
+    if a.get("mode") == "warm":
+        print("C14CHILD " + json.dumps(rep))
+        return
+    if a.get("mode") == "hist":
+        child_hist(a, rep, imp)
+        print("C14CHILD " + json.dumps(rep))
+        return
+    events = []
+    _observe(imp, a["ns"], events)
     if a.get("from_source"):
         # the reference load: straight through _exec_module, no cache consulted
         os.environ["BASILISP_DO_NOT_CACHE_NAMESPACES"] = "true"
@@ -534,6 +697,52 @@ def run_xerr(case):
             cleanup(root)
 
 
+_hctr = [0]
+
+
+def run_hist(case):
+    """One child interpreter runs the whole history; with `again` a second, fresh one then
+    imports the namespace as it was left."""
+    ns = case["ns"]
+    root, owned = scratch_root()
+    _hctr[0] += 1
+    d = os.path.join(root, f"h{os.getpid()}-{_hctr[0]}")
+    srcdir = os.path.join(d, "src")
+    try:
+        f = _write_src(srcdir, ns, hist_src(ns, 1, case["pad"]), case["mtime"])
+        cpath = cache_path(f)
+        if os.path.exists(cpath):
+            os.unlink(cpath)
+        args = {"mode": "hist", "ns": ns, "f": f, "cpath": cpath, "srcdir": srcdir,
+                "dwb": bool(case.get("dwb")), "steps": case["steps"]}
+        rep = run_child(args, case.get("seed", 1), srcdir)
+        if rep.get("child_failed") or "obs" not in rep:
+            return {"err": "child-failed", "detail": rep}
+        obs = rep["obs"]
+        if case.get("again"):
+            rep2 = run_child(dict(args, steps=[["import"]]), case.get("seed2", 1), srcdir)
+            if rep2.get("child_failed") or "obs" not in rep2:
+                return {"err": "child-failed", "detail": rep2}
+            obs = obs + rep2["obs"]
+        return {"hist": obs, "child_dwb": rep.get("dwb")}
+    finally:
+        shutil.rmtree(d, ignore_errors=True)
+        shutil.rmtree(os.path.join(PREFIX, os.path.abspath(d).lstrip(os.sep)), ignore_errors=True)
+        if owned:
+            cleanup(root)
+
+
+def run_shape(case):
+    """Static: which method stats the source file (harness/tr/tr_importer.stats_in_spec_shape)."""
+    from harness.tr import tr_importer
+    from harness.tr.gen_tables import Refuse
+    try:
+        text = open(os.path.join(REPO_SRC, "basilisp", "importer.py"), encoding="utf-8").read()
+        return {"shape": tr_importer.stats_in_spec_shape(text)}
+    except (Refuse, SyntaxError, OSError) as e:
+        return {"shape": None, "refused": f"{type(e).__name__}: {e}"[:300]}
+
+
 def run(case):
     k = case["k"]
     if k == "sweep":
@@ -548,6 +757,10 @@ def run(case):
         return run_import(case)
     if k == "xerr":
         return run_xerr(case)
+    if k == "hist":
+        return run_hist(case)
+    if k == "shape":
+        return run_shape(case)
     return {"err": "bad-case"}
 
 
